@@ -722,20 +722,22 @@ def check_C06(run):
 
 def c10_script(rng, nb, nd):
     """(items to doer, items to boss) by manipulating the honest streams"""
+    import re
     def manip(honest, other):
         s = list(honest)
         for _ in range(rng.choice([0, 1, 1, 1, 2])):
             if not s:
                 s.append('g%d:%d' % (rng.randint(0, 60), rng.randint(1, 10 ** 6))); continue
             i = rng.randrange(len(s))
-            op = rng.choice(['dup', 'swap', 'drop', 'reflect', 'flip', 'trunc', 'inject', 'replay-later'])
+            op = rng.choice(['dup', 'swap', 'drop', 'reflect', 'flip', 'trunc', 'inject', 'replay-later', 'header-flip'])
             if op == 'dup': s.insert(i, s[i])
             elif op == 'swap' and i + 1 < len(s): s[i], s[i + 1] = s[i + 1], s[i]
             elif op == 'drop': del s[i]
             elif op == 'reflect' and other: s.insert(i, rng.choice(other))
-            elif op == 'flip': s[i] = s[i].split('~')[0].split('/')[0] + '~%d' % rng.randint(0, 400) if s[i].startswith('f') else s[i]
-            elif op == 'trunc': s[i] = s[i].split('~')[0].split('/')[0] + '/%d' % rng.randint(0, 30) if s[i].startswith('f') else s[i]
+            elif op == 'flip': s[i] = re.split(r'[~/^]', s[i])[0] + '~%d' % rng.randint(0, 400) if s[i].startswith('f') else s[i]
+            elif op == 'trunc': s[i] = re.split(r'[~/^]', s[i])[0] + '/%d' % rng.randint(0, 30) if s[i].startswith('f') else s[i]
             elif op == 'inject': s.insert(i, 'g%d:%d' % (rng.randint(0, 60), rng.randint(1, 10 ** 6)))
+            elif op == 'header-flip': s[i] = re.split(r'[~/^]', s[i])[0] + '^%d' % rng.randint(0, 63) if s[i].startswith('f') else s[i]
             elif op == 'replay-later': s.append(s[i])
         return s
     hb = [f'fb{i}' for i in range(nb)]; hd = [f'fd{i}' for i in range(nd)]
@@ -767,7 +769,8 @@ def check_C10(run):
     for i in range(4):
         hb = [f'fb{k}' for k in range(4)]; hd = [f'fd{k}' for k in range(3)]
         for var in ([*hb[:i], hb[i], *hb[i:]], [*hb[:i], *hb[i + 1:]], [*hb[:i], hb[i] + '~13', *hb[i + 1:]], [*hb[:i], hb[i] + '/5', *hb[i + 1:]],
-                    [*hb[:i], 'fd0', *hb[i:]], [*hb[:i], 'g40:7', *hb[i:]], hb + [hb[i]], hb[:i] + hb[i:][::-1]):
+                    [*hb[:i], 'fd0', *hb[i:]], [*hb[:i], 'g40:7', *hb[i:]], hb + [hb[i]], hb[:i] + hb[i:][::-1],
+                    *[[*hb[:i], hb[i] + '^%d' % b, *hb[i + 1:]] for b in (0, 7, 8 * i + 3, 33, 47, 63)]):
             cases.append((4, 3, var, hd))
             cases.append((3, 4, [f'fb{k}' for k in range(3)], [v.replace('fb', 'fD').replace('fd', 'fb').replace('fD', 'fd') for v in var]))
     for _ in range(300 if not thorough else 5000):
@@ -779,7 +782,7 @@ def check_C10(run):
     hl = [' '.join(l.split()) for l in hl]
     impl = [a for a, _ in C.run_harness(hl, timeout=1800)]
     def mitems(items):
-        return ' '.join(it if (it.startswith('f') and '~' not in it and '/' not in it) else 'x' for it in items)
+        return ' '.join(it if (it.startswith('f') and '~' not in it and '/' not in it and '^' not in it) else 'x' for it in items)
     ml = []
     for nb, nd, td, tb in cases:
         ml.append('frames 1 ' + mitems(td)); ml.append('frames 0 ' + mitems(tb))
@@ -792,7 +795,7 @@ def check_C10(run):
         want = 'toDoer=[%s] toBoss=[%s] reuse=0' % (','.join(map(str, c10_expected(td, 'b'))), ','.join(map(str, c10_expected(tb, 'd'))))
         mwant = 'toDoer=%s toBoss=%s' % (model[2 * k], model[2 * k + 1])
         if ans != want:
-            oracle_fail.append(dict(layer='link', request_line=hl[k], delivered_to_doer=td, delivered_to_boss=tb, impl=ans, oracle=want, model=mwant))
+            oracle_fail.append(dict(layer='link', request_line=hl[k], delivered_to_doer=td, delivered_to_boss=tb, impl=ans, oracle_expects=want, model=mwant))
         if not ans.startswith(mwant + ' '):
             disagree.append(dict(layer='link', request_line=hl[k], impl=ans, model=mwant))
     run.cov['disagreements_checked'] += len(cases)
@@ -1053,7 +1056,7 @@ def check_C14(run):
         run.count('channel:' + ('sender-held-back' if nt else 'all-admitted')); run.cov['traces_validated_against_impl'] += 1
         want = f'admitted={adm} intact_in_order=1 counter_end=0 extra=0'
         if i_ans != want:
-            chan_fail.append(dict(layer='channel', request_line=hl, capacity=cap, sizes=sizes, impl=i_ans, oracle=want, model=m_ans))
+            chan_fail.append(dict(layer='channel', request_line=hl, capacity=cap, sizes=sizes, impl=i_ans, oracle_expects=want, model=m_ans))
         elif not i_ans.startswith(m_ans + ' '):
             run.violation(dict(kind='correspondence-broken', correspondence='channel/admission', request_line=hl, impl=i_ans, model=m_ans), no_input=True)
             break
